@@ -68,7 +68,11 @@ func verifMajorIs1(v string) bool {
 }
 
 func verifProxyType(name string) string {
-	switch verifapi.Concrete(verifapi.Choice(name, 6)) {
+	switch verifapi.Concrete(verifapi.Choice(name, 8)) {
+	case 6: // near misses of a known type: another case, a trailing byte
+		return "Standalone"
+	case 7:
+		return "webext" + verifASCII(name+".tail", 1)
 	case 0:
 		return "standalone"
 	case 1:
